@@ -261,6 +261,10 @@ let parse_dump lines cols tok =
     ({ rb_lines = lines; rb_cols = cols; cells = parse_raw raw; aux = parse_aux aux }, parse_api api)
   | _ -> failwith "dump"
 
+(* the check applied to a dump; C13 replaces it by the display-equality variant *)
+let dump_check : (ast -> rb -> apiview list list -> bool) ref = ref dump_checkb
+let eq_check : (ast -> ast -> bool) ref = ref ast_eqb
+
 let ext_oracle : (ast array -> int -> string -> string list -> string list -> (bool * string list)) ref =
   ref (fun _ _ kw _ _ -> failwith ("ext " ^ kw))
 (* ext_oracle states cur kw args remaining_obs_tokens -> (ok, remaining tokens after consumption) *)
@@ -289,10 +293,10 @@ let oracle line =
              let t = next () in
              if String.length t >= 5 && String.sub t 0 5 = "CRASH" then raise (Stop t);
              let (impl, api) = parse_dump sts.(!cur).a_lines sts.(!cur).a_cols t in
-             if not (dump_checkb sts.(!cur) impl api) then begin
+             if not (!dump_check sts.(!cur) impl api) then begin
                let why =
                  if not (wf_rbb impl) then "span structure ill-formed"
-                 else if not (ast_eqb (abs_rb impl) sts.(!cur)) then
+                 else if not (!eq_check (abs_rb impl) sts.(!cur)) then
                    (if not (aux_eqb impl.aux sts.(!cur).a_aux) then "auxiliary state differs from specification"
                     else "cell contents differ from specification")
                  else "inspection API view differs from specification" in
